@@ -125,13 +125,13 @@ func anyCommand(g *Gen) command.Command { return g.Command() }
 
 // TestAllCommands: every command form the parser supports, all argument kinds.
 func TestAllCommands(t *testing.T) {
-	ev.Checks(70000, 700000)
+	ev.Checks(70000, 520000)
 	rapid.Check(t, roundTrip(anyCommand))
 }
 
 // TestEveryForm: the forms drawn uniformly (so that the rarely drawn simple commands get their share too).
 func TestEveryForm(t *testing.T) {
-	ev.Checks(20000, 200000)
+	ev.Checks(20000, 150000)
 	rapid.Check(t, roundTrip(func(g *Gen) command.Command {
 		return g.Named(rapid.SampledFrom(CommandNames).Draw(g.T, "form"))
 	}))
@@ -139,7 +139,7 @@ func TestEveryForm(t *testing.T) {
 
 // TestSearchTrees: SEARCH / UID SEARCH with key trees of a forced depth 1..6.
 func TestSearchTrees(t *testing.T) {
-	ev.Checks(40000, 400000)
+	ev.Checks(40000, 300000)
 	rapid.Check(t, roundTrip(func(g *Gen) command.Command {
 		var p command.Payload = g.Search(g.n("min-depth", 1, g.MaxDepth))
 		if g.chance("uid", 1, 3) {
@@ -152,7 +152,7 @@ func TestSearchTrees(t *testing.T) {
 
 // TestFetch: FETCH / UID FETCH (attributes, macros, sections, partials).
 func TestFetch(t *testing.T) {
-	ev.Checks(30000, 300000)
+	ev.Checks(30000, 225000)
 	rapid.Check(t, roundTrip(func(g *Gen) command.Command {
 		var p command.Payload = g.Fetch()
 		if g.chance("uid", 1, 3) {
@@ -168,7 +168,7 @@ var stringForms = []string{"LOGIN", "SELECT", "EXAMINE", "CREATE", "DELETE", "RE
 
 // TestStringArguments: the commands whose arguments are astrings / strings / mailboxes / patterns / flags.
 func TestStringArguments(t *testing.T) {
-	ev.Checks(30000, 300000)
+	ev.Checks(30000, 225000)
 	rapid.Check(t, roundTrip(func(g *Gen) command.Command {
 		return g.Named(rapid.SampledFrom(stringForms).Draw(g.T, "form"))
 	}))
@@ -177,7 +177,7 @@ func TestStringArguments(t *testing.T) {
 // TestPipelined: two to four commands on one connection and one parser; for each boundary the client either waits
 // for the response or sends the next command right behind (so a chunk can span commands).
 func TestPipelined(t *testing.T) {
-	ev.Checks(15000, 150000)
+	ev.Checks(15000, 110000)
 	rapid.Check(t, func(t *rapid.T) {
 		g := newGen(t)
 		n := rapid.IntRange(2, 4).Draw(t, "commands")
